@@ -390,8 +390,10 @@ func decodeByteArray(s *Stream, val reflect.Value) error {
 		if vlen > 1 {
 			return &decodeError{msg: "input string too short", typ: val.Type()}
 		}
-		bv, _ := s.Uint()
-		val.Index(0).SetUint(bv)
+		// take the byte as it is (s.Uint refuses 0x00 as a non-canonical integer
+		// and then leaves the value unconsumed) and rearm Kind
+		val.Index(0).SetUint(uint64(s.byteval))
+		s.kind = -1
 	case String:
 		if uint64(vlen) < size {
 			return &decodeError{msg: "input string too long", typ: val.Type()}
